@@ -81,9 +81,27 @@ fn v(sig: &str, detail: String) -> Violation {
     Violation::new(ID, format!("{}/{}", ID, sig), detail)
 }
 
-// ---- watchdog: termination is part of the statement; a call that does not return within 5 s is reported
+// ---- watchdog: termination is part of the statement. A call that has not returned after 15 s of wall clock is
+// re-run on a fresh thread; only if that confirmation run does not return within 30 s either is it reported
+// (a call takes microseconds, so a single slow observation under machine load is not a verdict).
 static WATCH: Mutex<Vec<(std::thread::ThreadId, Instant, String)>> = Mutex::new(Vec::new());
 static MONITOR: std::sync::Once = std::sync::Once::new();
+
+fn run_pair(c: &Case) {
+    let mut held: Vec<u128> = c.held.iter().map(|x| x.u128()).collect();
+    match c.order {
+        1 => held.sort(),
+        2 => {
+            held.sort();
+            held.reverse();
+        }
+        _ => {}
+    }
+    let vals: Vec<ValidatorResponse> =
+        held.iter().enumerate().map(|(i, h)| ValidatorResponse { total_delegated: Uint128::new(*h), address: format!("val{}", i) }).collect();
+    let _ = std::panic::catch_unwind(|| calculate_delegations(c.amount, &vals));
+    let _ = std::panic::catch_unwind(|| calculate_undelegations(c.amount, vals.clone()));
+}
 
 fn watch_start(case_json: String) {
     MONITOR.call_once(|| {
@@ -91,18 +109,40 @@ fn watch_start(case_json: String) {
             std::thread::sleep(Duration::from_millis(500));
             let stuck = {
                 let w = WATCH.lock().unwrap();
-                w.iter().find(|(_, t, _)| t.elapsed() > Duration::from_secs(15)).map(|(_, _, c)| c.clone())
+                w.iter().find(|(_, t, _)| t.elapsed() > Duration::from_secs(15)).map(|(id, _, c)| (*id, c.clone()))
             };
-            if let Some(c) = stuck {
+            if let Some((tid, c)) = stuck {
+                // confirmation run
+                let confirmed_hang = match serde_json::from_str::<Case>(&c) {
+                    Ok(case) => {
+                        let (tx, rx) = std::sync::mpsc::channel();
+                        std::thread::spawn(move || {
+                            run_pair(&case);
+                            let _ = tx.send(());
+                        });
+                        rx.recv_timeout(Duration::from_secs(30)).is_err()
+                    }
+                    Err(_) => true,
+                };
+                if !confirmed_hang {
+                    eprintln!("note: a C12 call was observed for more than 15 s but its re-run returned at once (machine load); not a verdict");
+                    let mut w = WATCH.lock().unwrap();
+                    for e in w.iter_mut() {
+                        if e.0 == tid {
+                            e.1 = Instant::now();
+                        }
+                    }
+                    continue;
+                }
                 let dir = verif_root().join("replays");
                 let _ = std::fs::create_dir_all(&dir);
                 let body = format!(
-                    "{{\"property\":\"C12\",\"lenient\":false,\"expect\":\"violation:C12/does-not-terminate\",\"detail\":\"no result within 15 s\",\"seed\":0,\"case\":{}}}",
+                    "{{\"property\":\"C12\",\"lenient\":false,\"expect\":\"violation:C12/does-not-terminate\",\"detail\":\"no result within 15 s, and none within 30 s when re-run\",\"seed\":0,\"case\":{}}}",
                     c
                 );
                 let path = dir.join(format!("C12-{:016x}.json", fnv64(body.as_bytes())));
                 let _ = std::fs::write(&path, body);
-                println!("violation C12/does-not-terminate: a distribution call did not return within 15 s");
+                println!("violation C12/does-not-terminate: a distribution call did not return within 15 s (and not within 30 s when re-run)");
                 println!("VIOLATION property=C12 replay={}", path.display());
                 std::process::exit(1);
             }
@@ -129,7 +169,7 @@ impl Prop for C12 {
         "generated direct inputs of calculate_delegations / calculate_undelegations: list length 0..12 (sometimes up to 60), delegations from classes (zeros, ties, near-even +-1, tiny, up to 2^100), as generated / ascending / descending order, amounts 0, 1, remainders mod n, the total, total+1, about half, random, huge (sum + amount < 2^127); non-trivial = n >= 2, non-uniform delegations, amount > 0; distinct by hash of the input".into()
     }
     fn assumptions(&self) -> Vec<String> {
-        vec!["sum of delegations + amount < 2^127 (u128-safe range of the functions' own arithmetic)".into(), "termination is judged by a 15 s watchdog per call".into()]
+        vec!["sum of delegations + amount < 2^127 (u128-safe range of the functions' own arithmetic)".into(), "termination is judged by a 15 s watchdog per call, confirmed by a 30 s re-run".into()]
     }
     fn strategy(&self, _tier: Tier) -> BoxedStrategy<Case> {
         strategy()
